@@ -202,9 +202,32 @@ class CoqRun:
         self.imports = imports
         self.shard = shard
         self.terms: list[str] = []
+        self.defs: list[str] = []          # auxiliary definitions attached to each term
+        self._pending: list[str] = []
+        self._nid = 0
+
+    # Large literals elaborate super-linearly inside one term: hoist them into small typed definitions.
+    def vec(self, xs) -> str:
+        self._nid += 1
+        name = f"v{self._nid}"
+        self._pending.append(f"Definition {name} : list Q := {qlist(xs)}.")
+        return name
+
+    def mat(self, rows) -> str:
+        self._nid += 1
+        name = f"m{self._nid}"
+        rnames = []
+        for i, r in enumerate(rows):
+            rn = f"{name}_r{i}"
+            self._pending.append(f"Definition {rn} : list Q := {qlist(r)}.")
+            rnames.append(rn)
+        self._pending.append(f"Definition {name} : list (list Q) := [" + "; ".join(rnames) + "].")
+        return name
 
     def add(self, term: str) -> int:
         self.terms.append(term)
+        self.defs.append("\n".join(self._pending))
+        self._pending = []
         return len(self.terms) - 1
 
     def run(self, kind="bool") -> list:
@@ -218,6 +241,8 @@ class CoqRun:
                 f = d / f"cases_{si // self.shard:04d}.v"
                 body = [HEADER.format(imports=self.imports)]
                 for j, t in enumerate(chunk):
+                    if self.defs[si + j]:
+                        body.append(self.defs[si + j])
                     body.append(f"Definition c{j} := {t}.")
                 for j in range(len(chunk)):
                     body.append(f'Goal True. idtac "@@{si + j}". Abort.')
